@@ -63,7 +63,8 @@ Definition complete (cr : Carrier) (data : list Energy) : list Energy :=
 
 (** ** Auxiliary energy *)
 Definition used_services (data : list Energy) (i : Z) : list Service :=
-  filter (fun s => existsb (fun e => match e with EUsed j _ s' _ _ => Z.eqb j i && Service_beq s' s | _ => false end) data)
+  (* only EPB services count (fix d9ddfb3) *)
+  filter (fun s => srv_is_epb s && existsb (fun e => match e with EUsed j _ s' _ _ => Z.eqb j i && Service_beq s' s | _ => false end) data)
          all_services.
 
 Definition set_aux_service (i : Z) (s : Service) (e : Energy) : Energy :=
